@@ -215,6 +215,11 @@ func loaderArrangementOracle(e *Env) {
 							continue
 						}
 						var second RenderResult
+						// every other combination renders through another top-level entry point / writer kind (c17_routes.go)
+						route := renderRoutes[0]
+						if tick%2 == 1 {
+							route = nextRoute()
+						}
 						res := guarded(func() (string, error) {
 							eng := mk()
 							if mode == "cache-off-warm" {
@@ -223,7 +228,7 @@ func loaderArrangementOracle(e *Env) {
 								}
 							}
 							fl.on = true
-							out, err := eng.Render("pages/main", nil)
+							out, err := route.render(eng, "pages/main", nil)
 							// and once more on the same engine: the failure is not remembered as an absence
 							o2, e2 := eng.Render("pages/main", nil)
 							second = RenderResult{Out: o2, Err: e2}
@@ -241,10 +246,10 @@ func loaderArrangementOracle(e *Env) {
 							if rr.Err != nil && errors.Is(rr.Err, fault) && errors.As(rr.Err, &lf) && lf == fault && rr.Out == "" && res.Panic == "" {
 								continue
 							}
-							r.Violate(Violation{Key: "loader-cause-lost", What: fmt.Sprintf("%s (render %d): a loader that has %s fails to deliver it (%d failing Load calls), beside loaders that do not know the name: %s → output %q, error %v — the loader's fault must be the error of the render, found with errors.Is/As, and the output empty",
-								id, i+1, nm.failing, fl.invoked, stmt, truncate(rr.Out, 80), truncateErr(rr.Err, 200)),
+							r.Violate(Violation{Key: "loader-cause-lost", What: fmt.Sprintf("%s (render %d, first render through %s): a loader that has %s fails to deliver it (%d failing Load calls), beside loaders that do not know the name: %s → output %q, error %v — the loader's fault must be the error of the render, found with errors.Is/As, and the output empty",
+								id, i+1, route.name, nm.failing, fl.invoked, stmt, truncate(rr.Out, 80), truncateErr(rr.Err, 200)),
 								Broken: "theorem C17_propagates (loader causes, several loaders; implementation-only oracle)",
-								Replay: map[string]any{"kind": "loader-arrangement", "id": id, "templates": healthy, "failing": nm.failing, "loaders": arr, "mode": mode, "wrapped": fl.wrap, "main": "pages/main", "out": rr.Out, "err": fmt.Sprint(rr.Err), "panic": res.Panic}})
+								Replay: map[string]any{"kind": "loader-arrangement", "id": id, "templates": healthy, "failing": nm.failing, "loaders": arr, "mode": mode, "route": route.name, "wrapped": fl.wrap, "main": "pages/main", "out": rr.Out, "err": fmt.Sprint(rr.Err), "panic": res.Panic}})
 							break
 						}
 					}
